@@ -324,6 +324,26 @@ type Layout struct {
 	pos  int
 	// Extras, when true, allows unknown attributes to be injected.
 	Extras bool
+	// Escapes, when true, lets string values be spelled with JSON escapes
+	// ("lo\u006eg" is the string "long").
+	Escapes bool
+}
+
+// str renders a JSON string, possibly spelling one of its characters as an escape.
+func (l *Layout) str(s string) string {
+	if l == nil || !l.Escapes || len(s) == 0 || l.next(4) != 0 {
+		return jstr(s)
+	}
+	i := l.next(len(s))
+	if s[i] >= 0x80 {
+		return jstr(s)
+	}
+	pre, post := jstr(s[:i]), jstr(s[i+1:])
+	esc := fmt.Sprintf("\\u%04x", s[i])
+	if s[i] == '/' && l.next(2) == 0 {
+		esc = "\\/"
+	}
+	return pre[:len(pre)-1] + esc + post[1:]
 }
 
 func (l *Layout) next(n int) int {
@@ -423,19 +443,19 @@ func render(sb *strings.Builder, s Schema, l *Layout) {
 		sb.WriteString(l.ws() + "]")
 		return
 	case IsPrimitive(s.Kind) && !s.ObjectForm && s.LogicalType == "" && s.Name == "" && s.Namespace == "":
-		sb.WriteString(jstr(s.Kind))
+		sb.WriteString(l.str(s.Kind))
 		return
 	}
 	var members []string
-	members = append(members, `"type":`+l.ws()+jstr(s.Kind))
+	members = append(members, `"type":`+l.ws()+l.str(s.Kind))
 	if s.LogicalType != "" {
-		members = append(members, `"logicalType":`+l.ws()+jstr(s.LogicalType))
+		members = append(members, `"logicalType":`+l.ws()+l.str(s.LogicalType))
 	}
 	if s.Name != "" {
-		members = append(members, `"name":`+l.ws()+jstr(s.Name))
+		members = append(members, `"name":`+l.ws()+l.str(s.Name))
 	}
 	if s.Namespace != "" {
-		members = append(members, `"namespace":`+l.ws()+jstr(s.Namespace))
+		members = append(members, `"namespace":`+l.ws()+l.str(s.Namespace))
 	}
 	switch s.Kind {
 	case "record":
@@ -446,7 +466,7 @@ func render(sb *strings.Builder, s Schema, l *Layout) {
 				fb.WriteString("," + l.ws())
 			}
 			var fm []string
-			fm = append(fm, `"name":`+l.ws()+jstr(f.Name))
+			fm = append(fm, `"name":`+l.ws()+l.str(f.Name))
 			var tb strings.Builder
 			render(&tb, f.Type, l)
 			fm = append(fm, `"type":`+l.ws()+tb.String())
@@ -468,7 +488,7 @@ func render(sb *strings.Builder, s Schema, l *Layout) {
 			if i > 0 {
 				eb.WriteString(",")
 			}
-			eb.WriteString(jstr(sy))
+			eb.WriteString(l.str(sy))
 		}
 		eb.WriteString("]")
 		members = append(members, eb.String())
